@@ -9,6 +9,7 @@ import (
 	"go.minekube.com/gate/pkg/edition/java/proto/packet/chat"
 	"go.minekube.com/gate/pkg/edition/java/proto/util"
 	"go.minekube.com/gate/pkg/edition/java/proto/version"
+	"go.minekube.com/gate/pkg/edition/java/proxy/crypto"
 	"go.minekube.com/gate/pkg/gate/proto"
 
 	"go.minekube.com/common/minecraft/key"
@@ -46,8 +47,19 @@ func DumpAt(p any, protocol proto.Protocol) string {
 	return dumpVal(v, 0)
 }
 
+// DumpKey prints a player key as the values that travel: expiry (ms), the PKIX key bytes, Mojang's signature.
+func DumpKey(k crypto.IdentifiedKey) string {
+	h := k.SignatureHolder()
+	return "(FS " + lib.List([]string{
+		lib.Pair(`"Expiry"`, "(FZ "+lib.Z(k.ExpiryTemporal().UnixMilli())+")"),
+		lib.Pair(`"Bytes"`, "(FBy "+lib.Bytes(k.SignedPublicKeyBytes())+")"),
+		lib.Pair(`"Signature"`, "(FBy "+lib.Bytes(k.Signature())+")"),
+		lib.Pair(`"Holder"`, "(FU "+lib.Bytes(h[:])+")"),
+	}) + ")"
+}
+
 func dumpVal(v reflect.Value, depth int) string {
-	if depth > 6 {
+	if depth > 12 {
 		return "FX"
 	}
 	t := v.Type()
@@ -130,6 +142,13 @@ func dumpVal(v reflect.Value, depth int) string {
 		return "(FO (Some " + dumpVal(v.Elem(), depth+1) + "))"
 	case reflect.Struct:
 		return "(FS " + lib.List(structFields(v, depth)) + ")"
+	case reflect.Interface:
+		if v.IsNil() {
+			return "(FO None)"
+		}
+		if k, ok := v.Interface().(crypto.IdentifiedKey); ok {
+			return "(FO (Some " + DumpKey(k) + "))"
+		}
 	}
 	return "FX"
 }
